@@ -289,6 +289,13 @@ def main():
         idx, inp, pairs = a
         cache = {}
         res = []
+        other = inp.get("other")
+        if other:
+            # the unrelated partner file must compile on its own, else a joint run proves nothing
+            ro = run(inp["files"], dict(inp["base"], mains=list(other)))
+            if ro["rc"] != 0 or ro["timeout"]:
+                pairs = [(k, pb, pv) for k, pb, pv in pairs if not (set(other) & (set(pb["mains"]) | set(pv["mains"])))]
+                res.append(("partner", None, None, ro, None, None))
         for kind, pb, pv in pairs:
             key = json.dumps(pb, sort_keys=True)
             if key not in cache:
@@ -311,7 +318,10 @@ def main():
     for (idx, inp, pairs), res in zip(jobs, results):
         per_input[inp["input"]] = per_input.get(inp["input"], 0) + 1
         not_compiling = False
-        for kind, pb, pv, rb, rv, diff in res:
+        for vi, (kind, pb, pv, rb, rv, diff) in enumerate(res):
+            if kind == "partner":
+                skipped["partner of " + inp["input"]] = skipped.get("partner of " + inp["input"], 0) + 1
+                continue
             if rv is None:
                 not_compiling = True
                 continue
@@ -322,7 +332,7 @@ def main():
             outputs_compared += len(rb["outputs"])
             chk.seen_class((inp["input"], kind, nf), nontrivial=bool(rb["outputs"]))
             if diff:
-                name = re.sub(r"[^A-Za-z0-9_.-]+", "_", "%s-%s-%04d" % (inp["input"], kind, idx))
+                name = re.sub(r"[^A-Za-z0-9_.-]+", "_", "%s-%s-%04d-%d" % (inp["input"], kind, idx, vi))
                 chk.violation(name, make_case(inp, kind, pb, pv, rb, rv, diff),
                               note="%s/%s: %s" % (inp["input"], kind, json.dumps(diff)[:160]))
             elif (inp["input"], kind) not in sample_done and len(sample_done) < 3 and kind in ("hashseed", "order", "cwd") \
